@@ -202,7 +202,7 @@ func (t Table) PlayerSeatMap() map[string]int {
 
 func (t Table) FindPlayerIndexFromGamePlayerIndex(gamePlayerIdx int) int {
 	// game player index is out of range
-	if gamePlayerIdx < 0 || gamePlayerIdx >= len(t.State.PlayerStates) {
+	if gamePlayerIdx < 0 || gamePlayerIdx >= len(t.State.GamePlayerIndexes) {
 		return UnsetValue
 	}
 
